@@ -227,6 +227,21 @@ def mp4_size0_moov(d):
     return d[:last["off"]] + b"\x00\x00\x00\x00" + d[last["off"] + 4:]
 
 
+def mp4_ilst_first(d):
+    """[hdlr, ilst, free] -> [ilst, hdlr, free]: ilst is the first child of meta and the free atom is NOT adjacent to it"""
+    atoms = W.mp4_atoms(d)
+    flat = list(W.mp4_flat(atoms))
+    meta = [a for a in flat if a["path"] == (b"moov", b"udta", b"meta")]
+    if not meta:
+        return None
+    ch = meta[0]["children"]
+    names = [c["name"] for c in ch]
+    if names[:3] != [b"hdlr", b"ilst", b"free"]:
+        return None
+    h, i = ch[0], ch[1]
+    return d[:h["off"]] + d[i["off"]:i["off"] + i["size"]] + d[h["off"]:h["off"] + h["size"]] + d[i["off"] + i["size"]:]
+
+
 def flac_long_total(d):
     """STREAMINFO with a total sample count above 2^32 (the field has 36 bits)"""
     if d[:4] != b"fLaC" or d[4] & 0x7F != 0:
@@ -269,6 +284,11 @@ def extra_samples(kind, base):
             if x:
                 out.append(("synth-total-above-2^32+" + name0, x))
         elif kind.family == "mp4":
+            for nm, dd in base:
+                x = mp4_ilst_first(dd)
+                if x:
+                    out.append(("synth-ilst-first-free-apart+" + nm, x))
+                    break
             for nm, dd in base:
                 x = mp4_size0_moov(dd)
                 if x:
